@@ -279,6 +279,7 @@ def run(ck):
     ck.gen_from_source()
     ck.coq_build(["props/C17.vo", "extract/C17_extract.vo"])
     ck.print_assumptions(["DSP.C17"], ["DSP.C17." + t for t in THEOREMS])
+    ck.source_tie("strings")
     ck.hygiene()
     ck.ocaml_build()
     ck.harness_build(["c17"])
